@@ -4,6 +4,7 @@ import PfVerif.Proofs.C14_rivC
 import PfVerif.Proofs.C14_rivD
 import PfVerif.Proofs.C14_rivE
 import PfVerif.Proofs.C14_rivF
+import PfVerif.Proofs.C14_rivG
 /-! # C14, extension `riv` — estuary classification, Manning river depth, DEM slope
 
 Theorems about the models of `lean/PfVerif/Model/C14_riv.lean` (`rivers.classify_estuary`, the
@@ -391,6 +392,103 @@ theorem river_depth_anti_width (ds : Array Nat) (seq : List Nat) (P : RdParams) 
     (htok _ _ (hpow _ _ (manningArg_anti_den _ _ _ _ _ _ hnq (Rat.mul_pos hs hw)
       (Rat.mul_le_mul_of_nonneg_left hww (Rat.le_of_lt hs)))))
 
+/-! ### monotonicity in the slope computed through `zs` / `rivdst` (fourth stage)
+
+What holds. The depth is antitone in the slope the cell uses (for an antitone power-law parameter; for
+the Manning form this is `manningArg_anti_den`), and that slope is monotone in the *local slope field*
+as long as the set of cells without a local slope is the same (it is fixed by `rivdst`: links shorter
+than 1 m): filling with `max` and the maximum with `min_rivslp` are monotone. Hence for fixed `rivdst`
+the depth at EVERY cell is antitone in the water-surface drops `dz = zs − downstream(zs)` of all links.
+It is NOT monotone in `zs` cell by cell (raising `zs[i]` steepens the link below `i` and flattens the
+links into `i`), nor in `rivdst` when a link crosses the 1 m threshold (the nodata pattern changes);
+both are excluded by the hypotheses below, not by the proof method. -/
+
+/-- **slope used is monotone in the local slope field** (same cells without a local slope, `local ≤
+local'` cell by cell; `rivdst` may differ as long as that pattern is the same): `slope ≤ slope'` at every
+index, as fractions with positive denominators (cross-multiplied). -/
+theorem river_slope_mono_local (ds : Array Nat) (seq : List Nat) (P P' : RdParams) (htopo : Topo ds seq)
+    (hb : ∀ i ∈ seq, i < ds.size) (hS : 0 < P.S) (hD : 0 < P.minDen)
+    (eS : P'.S = P.S) (eN : P'.minNum = P.minNum) (eD : P'.minDen = P.minDen)
+    (hpat : ∀ j, j < ds.size → ((rivslpLocal ds P)[j]! = P.nd ↔ (rivslpLocal ds P')[j]! = P.nd))
+    (hle : ∀ j, j < ds.size → (rivslpLocal ds P)[j]! ≠ P.nd → (rivslpLocal ds P)[j]! ≤ (rivslpLocal ds P')[j]!)
+    (j : Nat) (hj : j < ds.size) :
+    ((rivslpFinal ds seq P)[j]!).1 * ((rivslpFinal ds seq P')[j]!).2 ≤
+      ((rivslpFinal ds seq P')[j]!).1 * ((rivslpFinal ds seq P)[j]!).2 ∧
+    0 < ((rivslpFinal ds seq P)[j]!).2 ∧ 0 < ((rivslpFinal ds seq P')[j]!).2 := by
+  refine ⟨rivslpFinal_mono_local ds seq P P' htopo hb hS hD eS eN eD hpat hle j hj, ?_, ?_⟩
+  · rw [rivslpFinal_get ds seq P j hj]; exact maxSlope_den_pos P hS hD _
+  · rw [rivslpFinal_get ds seq P' j hj]; exact maxSlope_den_pos P' (eS ▸ hS) (eD ▸ hD) _
+
+/-- **slope used is monotone in the water-surface drop.** Same network, order, `rivdst`, scale, 1 m
+threshold and `min_rivslp`; water levels `zs`, `zs'` with `dz ≤ dz'` on every link of at least 1 m
+(divisions exact - `riverExact`, the driver's `exact` - and no drop equal to the nodata slope −9999):
+every cell of the array uses a slope that is at most the one it uses with `zs'`. -/
+theorem river_slope_mono_zs (ds : Array Nat) (seq : List Nat) (P P' : RdParams) (htopo : Topo ds seq)
+    (hb : ∀ i ∈ seq, i < ds.size) (hS : 0 < P.S) (hK : 0 < P.K) (hD : 0 < P.minDen)
+    (eS : P'.S = P.S) (eK : P'.K = P.K) (eN : P'.minNum = P.minNum) (eD : P'.minDen = P.minDen)
+    (eR : P'.rivdst = P.rivdst)
+    (hex : riverExact ds P = true) (hex' : riverExact ds P' = true)
+    (hne : ∀ i, i < ds.size → rdDx ds P i ≥ P.K → rdDz ds P i ≠ -9999 * rdDx ds P i)
+    (hne' : ∀ i, i < ds.size → rdDx ds P i ≥ P.K → rdDz ds P' i ≠ -9999 * rdDx ds P i)
+    (hle : ∀ i, i < ds.size → rdDx ds P i ≥ P.K → rdDz ds P i ≤ rdDz ds P' i)
+    (j : Nat) (hj : j < ds.size) :
+    ((rivslpFinal ds seq P)[j]!).1 * ((rivslpFinal ds seq P')[j]!).2 ≤
+      ((rivslpFinal ds seq P')[j]!).1 * ((rivslpFinal ds seq P)[j]!).2 ∧
+    0 < ((rivslpFinal ds seq P)[j]!).2 ∧ 0 < ((rivslpFinal ds seq P')[j]!).2 := by
+  refine ⟨rivslpFinal_mono_zs ds seq P P' htopo hb hS hK hD eS eK eN eD eR hex hex' hne hne' hle j hj, ?_, ?_⟩
+  · rw [rivslpFinal_get ds seq P j hj]; exact maxSlope_den_pos P hS hD _
+  · rw [rivslpFinal_get ds seq P' j hj]; exact maxSlope_den_pos P' (eS ▸ hS) (eD ▸ hD) _
+
+/-- **depth is antitone in the slope used** (any power-law parameter that does not increase with the
+slope fraction): a cell that uses a larger slope is not deeper. -/
+theorem river_depth_anti_slope (ds : Array Nat) (seq : List Nat) (P P' : RdParams) (pw : Nat → Int × Int → Int)
+    (hpw : ∀ i (s s' : Int × Int), 0 < s.2 → 0 < s'.2 → s.1 * s'.2 ≤ s'.1 * s.2 → pw i s' ≤ pw i s)
+    (minDph ndOut : Int) (i : Nat) (hi : i < ds.size)
+    (h : ((rivslpFinal ds seq P)[i]!).1 * ((rivslpFinal ds seq P')[i]!).2 ≤
+          ((rivslpFinal ds seq P')[i]!).1 * ((rivslpFinal ds seq P)[i]!).2 ∧
+         0 < ((rivslpFinal ds seq P)[i]!).2 ∧ 0 < ((rivslpFinal ds seq P')[i]!).2) :
+    (riverDepth ds seq P' pw minDph ndOut)[i]! ≤ (riverDepth ds seq P pw minDph ndOut)[i]! := by
+  rw [riverDepth_get ds seq P' pw minDph ndOut i hi, riverDepth_get ds seq P pw minDph ndOut i hi]
+  split
+  · exact Int.le_refl _
+  · exact int_max_mono _ _ _ (hpw i _ _ h.2.1 h.2.2 h.1)
+
+/-- **Manning depth is non-increasing in the water-surface drop** (fixed network, distances, discharge,
+roughness and width). Rational model of `((manning·Q)/(√slope·w))^(3/5)` as in
+`river_depth_mono_discharge`: `pow`, `tok` monotone parameters, `sq` (root of the slope fraction)
+monotone in the fraction order; `manning·Q ≥ 0`, `w > 0` and `√slope > 0` at the cell. With `dz ≤ dz'` on
+every link of at least 1 m (hypotheses of `river_slope_mono_zs`) the depth with `zs'` is at most the
+depth with `zs`, at every cell - also at cells that take their slope from upstream through `fillnodata`. -/
+theorem river_depth_anti_zs (ds : Array Nat) (seq : List Nat) (P P' : RdParams) (pow : Rat → Rat)
+    (sq : Int × Int → Rat) (tok : Rat → Int) (hpow : ∀ a b, a ≤ b → pow a ≤ pow b)
+    (htok : ∀ a b, a ≤ b → tok a ≤ tok b)
+    (hsq : ∀ s s' : Int × Int, 0 < s.2 → 0 < s'.2 → s.1 * s'.2 ≤ s'.1 * s.2 → sq s ≤ sq s')
+    (manning q w : Array Rat) (minDph ndOut : Int)
+    (htopo : Topo ds seq) (hb : ∀ i ∈ seq, i < ds.size) (hS : 0 < P.S) (hK : 0 < P.K) (hD : 0 < P.minDen)
+    (eS : P'.S = P.S) (eK : P'.K = P.K) (eN : P'.minNum = P.minNum) (eD : P'.minDen = P.minDen)
+    (eR : P'.rivdst = P.rivdst)
+    (hex : riverExact ds P = true) (hex' : riverExact ds P' = true)
+    (hne : ∀ i, i < ds.size → rdDx ds P i ≥ P.K → rdDz ds P i ≠ -9999 * rdDx ds P i)
+    (hne' : ∀ i, i < ds.size → rdDx ds P i ≥ P.K → rdDz ds P' i ≠ -9999 * rdDx ds P i)
+    (hle : ∀ i, i < ds.size → rdDx ds P i ≥ P.K → rdDz ds P i ≤ rdDz ds P' i)
+    (i : Nat) (hi : i < ds.size) (hnq : 0 ≤ manning[i]! * q[i]!)
+    (hs : 0 < sq (rivslpFinal ds seq P)[i]!) (hw : 0 < w[i]!) :
+    (riverDepth ds seq P' (manningPw pow sq tok manning q w) minDph ndOut)[i]! ≤
+      (riverDepth ds seq P (manningPw pow sq tok manning q w) minDph ndOut)[i]! := by
+  obtain ⟨h1, h2, h3⟩ := river_slope_mono_zs ds seq P P' htopo hb hS hK hD eS eK eN eD eR hex hex' hne hne' hle i hi
+  rw [riverDepth_get ds seq P' _ minDph ndOut i hi, riverDepth_get ds seq P _ minDph ndOut i hi]
+  split
+  · exact Int.le_refl _
+  · refine int_max_mono _ _ _ (htok _ _ (hpow _ _ ?_))
+    exact manningArg_anti_den _ _ _ _ _ _ hnq (Rat.mul_pos hs hw)
+      (Rat.mul_le_mul_of_nonneg_right (hsq _ _ h2 h3 h1) (Rat.le_of_lt hw))
+
+/-- the quotient `num/den` of the slope fraction - the `sq` of the examples, and any monotone function of
+it such as the real square root - is monotone in the fraction order (hypothesis `hsq` above) -/
+theorem slope_quotient_mono (s s' : Int × Int) (h2 : 0 < s.2) (h2' : 0 < s'.2)
+    (h : s.1 * s'.2 ≤ s'.1 * s.2) : (s.1 : Rat) / (s.2 : Rat) ≤ (s'.1 : Rat) / (s'.2 : Rat) :=
+  fracVal_mono s.1 s.2 s'.1 s'.2 h2 h2' h
+
 /-- **`river_slope_eq_spec`: the slope every cell uses = the declarative oracle, whole array.** The
 model works on scaled integers `S·dz/dx` and fills cells without a local slope by the up-to-downstream
 `fillnodata` sweep in the order `seq`; the oracle `rivslpSpec` the driver evaluates is independent of
@@ -755,5 +853,33 @@ example : (List.range 4).map (slopeGy 4 1 #[5, 1, 9, 2] (-9999)) = [8, -8, -2, 1
     (List.range 4).map (slopeGx 4 1 #[5, 1, 9, 2] (-9999)) = [0, 0, 0, 0] := by decide +kernel
 
 example : coversNet_c14 dsE seqE = true ∧ coversNet_c14 dsR seqR = true := by decide +kernel
+
+/-- monotone in the water-surface drop: `zs'` steepens the links 2→1, 3→2, 4→2 (drops 2,2,8 → 3,4,10; all
+divisions exact); every cell uses a larger slope - also cells 0 and 1, which take theirs from cell 2
+through `fillnodata` - and the Manning depth does not increase (strictly smaller at cells 0-3) -/
+def PR' : RdParams := { PR with zs := #[0, 1, 4, 8, 14, 0] }
+example : rivslpFinal dsR seqR PR' = #[(6, 8), (6, 8), (6, 8), (8, 8), (10, 8), (1, 1024)] := by decide +kernel
+example : ∀ j, j < 6 → ((rivslpFinal dsR seqR PR)[j]!).1 * ((rivslpFinal dsR seqR PR')[j]!).2 ≤
+      ((rivslpFinal dsR seqR PR')[j]!).1 * ((rivslpFinal dsR seqR PR)[j]!).2 ∧
+    0 < ((rivslpFinal dsR seqR PR)[j]!).2 ∧ 0 < ((rivslpFinal dsR seqR PR')[j]!).2 := fun j hj =>
+  river_slope_mono_zs dsR seqR PR PR' topoR (by decide) (by decide) (by decide) (by decide) rfl rfl rfl rfl rfl
+    (by decide +kernel) (by decide +kernel) (by decide +kernel) (by decide +kernel) (by decide +kernel) j hj
+example : (riverDepth dsR seqR PR (manningPw id sqR Rat.floor manR #[8, 8, 8, 8, 8, 8] wR) 3 (-1)).toList =
+      [8, 8, 8, 8, 4, -1] ∧
+    (riverDepth dsR seqR PR' (manningPw id sqR Rat.floor manR #[8, 8, 8, 8, 8, 8] wR) 3 (-1)).toList =
+      [5, 5, 5, 4, 3, -1] := by decide +kernel
+example : (0 : Rat) < sqR (rivslpFinal dsR seqR PR)[2]! ∧ (0 : Rat) ≤ manR[2]! * (8 : Rat) ∧ (0 : Rat) < wR[2]! := by
+  decide +kernel
+
+/-- the theorem applied in full (all hypotheses discharged on the concrete instance): `pow = id`,
+`sq = num/den`, `tok = floor` -/
+example : (riverDepth dsR seqR PR' (manningPw id sqR Rat.floor manR #[8, 8, 8, 8, 8, 8] wR) 3 (-1))[2]! ≤
+    (riverDepth dsR seqR PR (manningPw id sqR Rat.floor manR #[8, 8, 8, 8, 8, 8] wR) 3 (-1))[2]! :=
+  river_depth_anti_zs dsR seqR PR PR' id sqR Rat.floor (fun _ _ h => h)
+    (fun a _ h => Rat.le_floor_iff.2 (Rat.le_trans (Rat.floor_le a) h))
+    (fun s s' h2 h2' h => slope_quotient_mono s s' h2 h2' h) manR #[8, 8, 8, 8, 8, 8] wR 3 (-1)
+    topoR (by decide) (by decide) (by decide) (by decide) rfl rfl rfl rfl rfl
+    (by decide +kernel) (by decide +kernel) (by decide +kernel) (by decide +kernel) (by decide +kernel)
+    2 (by decide) (by decide +kernel) (by decide +kernel) (by decide +kernel)
 
 end Pf.C14x
